@@ -70,9 +70,9 @@ type Node struct {
 	onPageWrite func(db *litefs.DB, pgno uint32, data []byte, invalidate bool)
 	onTruncate  func(db *litefs.DB, pageN uint32)
 
-	mu     sync.Mutex
-	exits  []ExitEvent
-	panics []*PanicError
+	mu      sync.Mutex
+	exits   []ExitEvent
+	panics  []*PanicError
 	closed  atomic.Bool
 	mounted bool
 }
